@@ -16,6 +16,7 @@
 #include <functional>
 #include <memory>
 #include <sstream>
+#include <iostream>
 
 namespace PPL = Parma_Polyhedra_Library;
 
@@ -24,11 +25,70 @@ namespace {
 void* const SENTINEL = (void*) (uintptr_t) 0x5e471ae1;
 
 // ---------------------------------------------------------------- value operations on handles (for const checks)
-struct TypeOps { std::function<void*(const void*)> clone; std::function<bool(const void*, const void*)> equal; std::function<void(void*)> destroy; };
+// faith: re-computes an entry point of the interfaced class on C++ clones taken before the call.
+// Returns 0 when the entry point is not in the generic table, 1 when the C result agrees, -1 (with `why') when not.
+struct FaithArgs { std::string op; const void* x_before; const void* y_before; const void* x_after; unsigned long d0, d1; int r; };
+struct TypeOps { std::function<void*(const void*)> clone; std::function<bool(const void*, const void*)> equal; std::function<void(void*)> destroy;
+                 std::function<int(const FaithArgs&, std::string&)> faith;
+                 std::function<bool(void*, const void*)> join; };   // x := upper bound of x and y (false: not possible)
+
+// The generic table: entry points whose C++ counterpart is a member with the same name on every simple domain.
+// The C++ operation runs on clones made before the call, so a wrapper that calls another method, swaps its
+// arguments, drops one, or maps the Boolean answer wrongly disagrees; a C++ exception must be a negative return.
+template <class T, class EQ> int faith_domain(const FaithArgs& a, std::string& why, EQ same) {
+  const T& xb = *static_cast<const T*>(a.x_before);
+  const T* yb = static_cast<const T*>(a.y_before);
+  const T& xa = *static_cast<const T*>(a.x_after);
+  const std::string& op = a.op;
+  int expect_bool = -1; bool mut = false; bool threw = false;
+  T c(xb);
+  try {
+    if (op == "is_empty") expect_bool = xb.is_empty();
+    else if (op == "is_universe") expect_bool = xb.is_universe();
+    else if (op == "is_bounded") expect_bool = xb.is_bounded();
+    else if (op == "is_topologically_closed") expect_bool = xb.is_topologically_closed();
+    else if (op == "is_discrete") expect_bool = xb.is_discrete();
+    else if (op == "contains_integer_point") expect_bool = xb.contains_integer_point();
+    else if (op == "OK") expect_bool = xb.OK();
+    else if (op == "constrains") expect_bool = xb.constrains(PPL::Variable(a.d0));
+    else if (op == "contains" && yb) expect_bool = xb.contains(*yb);
+    else if (op == "strictly_contains" && yb) expect_bool = xb.strictly_contains(*yb);
+    else if (op == "is_disjoint_from" && yb) expect_bool = xb.is_disjoint_from(*yb);
+    else if (op == "equals" && yb) expect_bool = (xb == *yb);
+    else if (op == "simplify_using_context_assign" && yb) { expect_bool = c.simplify_using_context_assign(*yb); mut = true; }
+    else if (op == "topological_closure_assign") { c.topological_closure_assign(); mut = true; }
+    else if (op == "add_space_dimensions_and_embed") { c.add_space_dimensions_and_embed(a.d0); mut = true; }
+    else if (op == "add_space_dimensions_and_project") { c.add_space_dimensions_and_project(a.d0); mut = true; }
+    else if (op == "remove_higher_space_dimensions") { c.remove_higher_space_dimensions(a.d0); mut = true; }
+    else if (op == "unconstrain_space_dimension") { c.unconstrain(PPL::Variable(a.d0)); mut = true; }
+    else if (op == "expand_space_dimension") { c.expand_space_dimension(PPL::Variable(a.d0), a.d1); mut = true; }
+    else if (op == "intersection_assign" && yb) { c.intersection_assign(*yb); mut = true; }
+    else if (op == "upper_bound_assign" && yb) { c.upper_bound_assign(*yb); mut = true; }
+    else if (op == "difference_assign" && yb) { c.difference_assign(*yb); mut = true; }
+    else if (op == "time_elapse_assign" && yb) { c.time_elapse_assign(*yb); mut = true; }
+    else if (op == "concatenate_assign" && yb) { c.concatenate_assign(*yb); mut = true; }
+    else return 0;
+  }
+  catch (const std::exception&) { threw = true; }
+  if (threw) { if (a.r >= 0) { why = "the C++ operation throws on the same arguments but the C call reported success (" + std::to_string(a.r) + ")"; return -1; } return 1; }
+  if (a.r < 0) { why = "the C++ operation succeeds on the same arguments but the C call failed with " + std::to_string(a.r); return -1; }
+  if (expect_bool >= 0 && (a.r > 0) != (expect_bool != 0)) { why = std::string("C++ answers ") + (expect_bool ? "true" : "false") + ", the C call returned " + std::to_string(a.r); return -1; }
+  if (mut && !same(&c, &xa)) { why = "the receiver after the C call differs from the result of the C++ operation on a clone taken before the call"; return -1; }
+  return 1;
+}
 template <class T> TypeOps ops_eq() {
   return { [](const void* p) { return (void*) new T(*static_cast<const T*>(p)); },
            [](const void* a, const void* b) { return *static_cast<const T*>(a) == *static_cast<const T*>(b); },
            [](void* p) { delete static_cast<T*>(p); } };
+}
+template <class T> TypeOps ops_domain() {
+  TypeOps t = { [](const void* p) { return (void*) new T(*static_cast<const T*>(p)); },
+                [](const void* a, const void* b) { return *static_cast<const T*>(a) == *static_cast<const T*>(b); },
+                [](void* p) { delete static_cast<T*>(p); }, nullptr };
+  t.join = [](void* x, const void* y) { try { static_cast<T*>(x)->upper_bound_assign(*static_cast<const T*>(y)); return true; } catch (const std::exception&) { return false; } };
+  t.faith = [](const FaithArgs& a, std::string& why) {
+    return faith_domain<T>(a, why, [](const void* p, const void* q) { const T& x = *static_cast<const T*>(p); const T& y = *static_cast<const T*>(q); return x.space_dimension() == y.space_dimension() && x == y; }); };
+  return t;
 }
 template <class T> TypeOps ops_dump() {   // value = ascii_dump text of a copy (syntactic classes)
   return { [](const void* p) { return (void*) new T(*static_cast<const T*>(p)); },
@@ -41,12 +101,22 @@ TypeOps ops_polyhedron() {
              return (PPL::Polyhedron*) new PPL::NNC_Polyhedron(*static_cast<const PPL::NNC_Polyhedron*>(ph)); },
            [](const void* a, const void* b) { const PPL::Polyhedron* x = static_cast<const PPL::Polyhedron*>(a); const PPL::Polyhedron* y = static_cast<const PPL::Polyhedron*>(b);
              return x->topology() == y->topology() && x->space_dimension() == y->space_dimension() && *x == *y; },
-           [](void* p) { delete static_cast<PPL::Polyhedron*>(p); } };
+           [](void* p) { delete static_cast<PPL::Polyhedron*>(p); },
+           [](const FaithArgs& a, std::string& why) -> int {
+             const PPL::Polyhedron* xb = static_cast<const PPL::Polyhedron*>(a.x_before);
+             const PPL::Polyhedron* yb = static_cast<const PPL::Polyhedron*>(a.y_before);
+             if (yb && yb->topology() != xb->topology()) return 0;     // mixed topologies: judged by the generic laws only
+             auto same = [](const void* p, const void* q) { const PPL::Polyhedron& x = *static_cast<const PPL::Polyhedron*>(p); const PPL::Polyhedron& y = *static_cast<const PPL::Polyhedron*>(q);
+               return x.topology() == y.topology() && x.space_dimension() == y.space_dimension() && x == y; };
+             if (xb->topology() == PPL::NECESSARILY_CLOSED) return faith_domain<PPL::C_Polyhedron>(a, why, same);
+             return faith_domain<PPL::NNC_Polyhedron>(a, why, same); },
+           [](void* x, const void* y) { try { static_cast<PPL::Polyhedron*>(x)->upper_bound_assign(*static_cast<const PPL::Polyhedron*>(y)); return true; } catch (const std::exception&) { return false; } } };
 }
 template <class PS> TypeOps ops_pset() {
   return { [](const void* p) { return (void*) new PS(*static_cast<const PS*>(p)); },
            [](const void* a, const void* b) { const PS* x = static_cast<const PS*>(a); const PS* y = static_cast<const PS*>(b); return x->space_dimension() == y->space_dimension() && x->geometrically_equals(*y); },
-           [](void* p) { delete static_cast<PS*>(p); } };
+           [](void* p) { delete static_cast<PS*>(p); }, nullptr,
+           [](void* x, const void* y) { try { static_cast<PS*>(x)->upper_bound_assign(*static_cast<const PS*>(y)); return true; } catch (const std::exception&) { return false; } } };
 }
 std::map<std::string, TypeOps> make_type_ops() {
   std::map<std::string, TypeOps> m;
@@ -61,15 +131,15 @@ std::map<std::string, TypeOps> make_type_ops() {
   m["Congruence_System"] = ops_dump<PPL::Congruence_System>();
   m["Grid_Generator_System"] = ops_dump<PPL::Grid_Generator_System>();
   m["Polyhedron"] = ops_polyhedron();
-  m["Grid"] = ops_eq<PPL::Grid>();
-  m["Rational_Box"] = ops_eq<PPL::Rational_Box>();
-  m["BD_Shape_mpz_class"] = ops_eq<PPL::BD_Shape<mpz_class> >();
-  m["BD_Shape_mpq_class"] = ops_eq<PPL::BD_Shape<mpq_class> >();
-  m["Octagonal_Shape_mpz_class"] = ops_eq<PPL::Octagonal_Shape<mpz_class> >();
-  m["Octagonal_Shape_mpq_class"] = ops_eq<PPL::Octagonal_Shape<mpq_class> >();
-  m["Double_Box"] = ops_eq<PPL::Double_Box>();
-  m["BD_Shape_double"] = ops_eq<PPL::BD_Shape<double> >();
-  m["Octagonal_Shape_double"] = ops_eq<PPL::Octagonal_Shape<double> >();
+  m["Grid"] = ops_domain<PPL::Grid>();
+  m["Rational_Box"] = ops_domain<PPL::Rational_Box>();
+  m["BD_Shape_mpz_class"] = ops_domain<PPL::BD_Shape<mpz_class> >();
+  m["BD_Shape_mpq_class"] = ops_domain<PPL::BD_Shape<mpq_class> >();
+  m["Octagonal_Shape_mpz_class"] = ops_domain<PPL::Octagonal_Shape<mpz_class> >();
+  m["Octagonal_Shape_mpq_class"] = ops_domain<PPL::Octagonal_Shape<mpq_class> >();
+  m["Double_Box"] = ops_domain<PPL::Double_Box>();
+  m["BD_Shape_double"] = ops_domain<PPL::BD_Shape<double> >();
+  m["Octagonal_Shape_double"] = ops_domain<PPL::Octagonal_Shape<double> >();
   m["Pointset_Powerset_C_Polyhedron"] = ops_pset<PPL::Pointset_Powerset<PPL::C_Polyhedron> >();
   m["Pointset_Powerset_NNC_Polyhedron"] = ops_pset<PPL::Pointset_Powerset<PPL::NNC_Polyhedron> >();
   return m;
@@ -106,7 +176,8 @@ struct CallCtx {
 
   long next() { return op->arg(cur++); }
   long mod(long n) { long v = next(); if (n <= 0) return 0; v %= n; return v < 0 ? v + n : v; }
-  ppl_dimension_type dim() { long v = mod(8); return v == 7 ? (ppl_dimension_type) 1 << 40 : (ppl_dimension_type) (v % (maxdim + 2)); }
+  std::vector<unsigned long> dims_drawn;
+  ppl_dimension_type dim() { long v = mod(8); ppl_dimension_type d = v == 7 ? ~(ppl_dimension_type) 0 - 1 : (ppl_dimension_type) (v % (maxdim + 2)); /* 7: above every max_space_dimension() */ dims_drawn.push_back((unsigned long) d); return d; }
   long small() { return mod(5); }
   int small_int() { return (int) (next() % 4); }
   size_t dims(ppl_dimension_type* a) { size_t n = (size_t) mod(4); for (size_t i = 0; i < n; ++i) a[i] = (ppl_dimension_type) mod(maxdim + 1); return n; }
@@ -122,9 +193,39 @@ struct CallCtx {
     size_t i = (size_t) (((k % n) + n) % n);
     void* p = i < v1.size() ? v1[i] : v2[i - v1.size()];
     if (is_const) const_used.push_back({ type, p }); else mutable_used.push_back(p);
+    picked.push_back({ type, p });
     return p;
   }
+  // faithfulness shadow: the first two handles of the call, cloned before it
+  std::vector<std::pair<int, void*> > picked;
+  std::vector<void*> picked_clones;
   int skip() { skipped = true; cleanup(); return 0; }
+  // widenings: make the receiver contain the argument first (harness-side C++ call on the same objects)
+  bool ensure_contains(void* x, const void* y) {
+    if (picked.empty()) return false;
+    FaultPause fp;
+    auto it = tops->find(HTN(picked[0].first));
+    if (it == tops->end() || !it->second.join) return false;          // class without a C++ shadow: the entry point is not called
+    if (x == y) return true;
+    if (picked.size() >= 2 && std::string(HTN(picked[1].first)) != HTN(picked[0].first)) return true;
+    (void) it->second.join(x, y);     // a failure (dimension / topology mismatch) leaves the call to be rejected by the library
+    return true;
+  }
+  void after_load(int r, void* h) {
+    if (r >= 0) return;
+    for (int t = 0; t < (int) pool.size(); ++t) {
+      std::vector<void*>& v = pool[(size_t) t];
+      auto f = std::find(v.begin(), v.end(), h);
+      if (f == v.end()) continue;
+      v.erase(f);
+      int dr = DELETE_FN_of(t) ? DELETE_FN_of(t)(h) : 0;
+      if (dr < 0) ctx->violation("C20", "delete-failed", kl("after-failed-load"), "deleting a handle whose ascii_load failed returned " + std::to_string(dr));
+      ctx->stat("capi.deleted_after_failed_load");
+      return;
+    }
+  }
+  typedef int (*DelFn)(const void*);
+  static DelFn DELETE_FN_of(int t);
   FILE* file(bool for_load) {
     MemFile* m = new MemFile; files.push_back(m);
     if (for_load) { long k = mod(4); if (k && !dumps.empty()) { auto it = dumps.begin(); std::advance(it, (long) (mod((long) dumps.size()))); m->data = it->second; if (k == 3 && m->data.size() > 4) m->data.resize(m->data.size() / 2); } else m->data = "garbage 1 2 3"; }
@@ -142,6 +243,41 @@ struct CallCtx {
       auto it = tops->find(HTN(cu.first));
       const_clones.push_back(it == tops->end() ? nullptr : it->second.clone(cu.second));
     }
+    if (getenv("VERIF_TRACE")) for (auto& pk : picked) {
+      std::string n = HTN(pk.first); std::cerr << "TRACE arg " << n << " @" << pk.second << "\n";
+      if (n == "Constraint_System") static_cast<const PPL::Constraint_System*>(pk.second)->ascii_dump(std::cerr);
+      else if (n == "Octagonal_Shape_double") static_cast<const PPL::Octagonal_Shape<double>*>(pk.second)->ascii_dump(std::cerr);
+      else if (n == "Linear_Expression") static_cast<const PPL::Linear_Expression*>(pk.second)->ascii_dump(std::cerr);
+    }
+    for (size_t i = 0; i < picked.size() && i < 2; ++i) {
+      auto it = tops->find(HTN(picked[i].first));
+      picked_clones.push_back(it == tops->end() || !it->second.faith ? nullptr : it->second.clone(picked[i].second));
+    }
+  }
+  // entry point name -> (class, operation) of the generic table
+  bool split_name(std::string& cls, std::string& opn) const {
+    if (fname.compare(0, 4, "ppl_") != 0 || picked.empty()) return false;
+    cls = HTN(picked[0].first);
+    std::string pre = "ppl_" + cls + "_";
+    if (fname.compare(0, pre.size(), pre) != 0) return false;
+    opn = fname.substr(pre.size());
+    std::string suf = "_" + cls;
+    if (opn.size() > suf.size() && opn.compare(opn.size() - suf.size(), suf.size(), suf) == 0) opn.resize(opn.size() - suf.size());
+    return true;
+  }
+  void faith_check(int r) {
+    std::string cls, opn;
+    if (arm_mode != 0 || escaped || !split_name(cls, opn) || picked_clones.empty() || !picked_clones[0]) return;
+    if (r == PPL_ERROR_OUT_OF_MEMORY || r == PPL_TIMEOUT_EXCEPTION) return;
+    TypeOps& to = (*tops)[cls];
+    bool binary = picked.size() >= 2 && picked[1].first == picked[0].first;
+    if (binary && !picked_clones[1]) return;
+    FaithArgs a{ opn, picked_clones[0], binary ? picked_clones[1] : nullptr, picked[0].second, dims_drawn.size() > 0 ? dims_drawn[0] : 0UL, dims_drawn.size() > 1 ? dims_drawn[1] : 0UL, r };
+    std::string why; int v = 0;
+    try { v = to.faith(a, why); } catch (...) { v = 0; }
+    if (v == 0) return;
+    ctx->stat("capi.faithfulness_checks");
+    if (v < 0) ctx->violation("C20", "unfaithful", kl(opn), why);
   }
   // The fault is armed around the entry point itself and nothing else: the thunk's own argument preparation
   // (mpz_init, FILE creation, clones for the const check) is harness code, not code under test.
@@ -175,6 +311,8 @@ struct CallCtx {
   void cleanup() {
     for (size_t i = 0; i < const_clones.size(); ++i) if (const_clones[i]) (*tops)[HTN(const_used[i].first)].destroy(const_clones[i]);
     const_clones.clear(); const_used.clear(); mutable_used.clear();
+    for (size_t i = 0; i < picked_clones.size(); ++i) if (picked_clones[i]) (*tops)[HTN(picked[i].first)].destroy(picked_clones[i]);
+    picked_clones.clear(); picked.clear(); dims_drawn.clear();
     for (MemFile* m : files) delete m;
     files.clear();
   }
@@ -201,10 +339,15 @@ struct CallCtx {
       TypeOps& to = (*tops)[HTN(const_used[i].first)];
       bool same = false;
       try { same = to.equal(const_used[i].second, const_clones[i]); } catch (...) { same = true; }
+      if (!same && !receiver_alias(const_used[i].second) && getenv("VERIF_TRACE") && std::string(HTN(const_used[i].first)) == "Polyhedron") {
+        std::cerr << "TRACE const handle before:\n"; static_cast<const PPL::Polyhedron*>(const_clones[i])->ascii_dump(std::cerr);
+        std::cerr << "TRACE const handle after:\n"; static_cast<const PPL::Polyhedron*>(const_used[i].second)->ascii_dump(std::cerr); }
       if (!same && !receiver_alias(const_used[i].second)) ctx->violation("C20", "const-handle-modified", kl(HTN(const_used[i].first)), "a handle passed as const denotes a different value after the call");
     }
+    faith_check(r);
     // remember dumps for later loads
     for (MemFile* m : files) if (!m->data.empty() && m->rpos == 0 && fname.find("ascii_dump") != std::string::npos && r >= 0) dumps[(int) (hash_str(fname) % 1000)] = m->data;
+    if (getenv("VERIF_TRACE")) std::cerr << "TRACE " << fname << " -> " << r << "\n";
     ctx->stat(r >= 0 ? "capi.ok" : "capi.failed");
     cleanup();
     return r;
@@ -217,6 +360,7 @@ extern "C" void capi_error_handler(enum ppl_enum_error_code code, const char*) {
 
 #include "capi_thunks.inc"
 const char* CallCtx::HTN(int t) { return t >= 0 && t < N_HTYPES ? HTYPE_NAMES[t] : "?"; }
+CallCtx::DelFn CallCtx::DELETE_FN_of(int t) { return t >= 0 && t < N_HTYPES ? (CallCtx::DelFn) DELETE_FN[t] : nullptr; }
 
 int htype_index(const char* n) { for (int i = 0; i < N_HTYPES; ++i) if (!strcmp(HTYPE_NAMES[i], n)) return i; return -1; }
 
@@ -383,7 +527,7 @@ struct CapiHarness : Harness {
             ctx.note("delete all handles");
             delete_all(C, ctx, "after-fault");
             ctx.note("leak check");
-            if (lsan_available() && failed) { ctx.stat("capi.leak_checks"); if (lsan_leaks()) ctx.violation("C20", "leak", "C|" + op.kind + "|" + op.fault, "memory allocated during a call cut short by an allocation failure is unreachable after every handle was deleted"); }
+            if (lsan_available() && failed) { ctx.stat("capi.leak_checks"); std::string site; if (lsan_leaks_site(site)) ctx.violation("C20", "leak", "C|" + op.kind + "|" + op.fault + "|site=" + site, "memory allocated during a call cut short by an allocation failure is unreachable after every handle was deleted (first non-allocator frame: " + site + ")"); }
           });
         }
       }
